@@ -4,6 +4,9 @@
 #define MuscleAtomicCounter_h
 
 #include "support/MuscleSupport.h"
+#ifdef MUSCLE_VERIF_HOOKS
+# include "system/VerifHooks.h"
+#endif
 
 #ifdef MUSCLE_SINGLE_THREAD_ONLY
   // empty
@@ -73,6 +76,9 @@ public:
      */
    MUSCLE_NODISCARD inline bool AtomicIncrement()
    {
+#ifdef MUSCLE_VERIF_HOOKS
+      (void) MUSCLE_VERIF_HOOK(MUSCLE_VH_ATOMIC_INC, this, 0);
+#endif
 #if defined(MUSCLE_SINGLE_THREAD_ONLY) || !defined(MUSCLE_AVOID_CPLUSPLUS11)
       return (++_count == 1);
 #elif defined(MUSCLE_USE_MUTEXES_FOR_ATOMIC_OPERATIONS)
@@ -112,6 +118,9 @@ public:
      */
    MUSCLE_NODISCARD inline bool AtomicDecrement()
    {
+#ifdef MUSCLE_VERIF_HOOKS
+      (void) MUSCLE_VERIF_HOOK(MUSCLE_VH_ATOMIC_DEC, this, 0);
+#endif
 #if defined(MUSCLE_SINGLE_THREAD_ONLY) || !defined(MUSCLE_AVOID_CPLUSPLUS11)
       return (--_count == 0);
 #elif defined(MUSCLE_USE_MUTEXES_FOR_ATOMIC_OPERATIONS)
